@@ -550,6 +550,21 @@ Inductive result_ := ROk (x : st) | RGoError (x : st) | RPanic | ROutOfFuel.
 
 Definition exit_all_completed (s : session) : session := set_runs s (map (run_exit RCompleted) (s_runs s)).
 
+(* The flow of run [ri] cannot be used to continue it: the flow asset is missing (`run.Flow() == nil`), or it is a
+   voice flow and the session was not triggered with a call (session.canContinue - the flow may have become a voice
+   flow since the session was triggered; say_msg / play_audio need the call).  The model has no call as such: a
+   trigger has a call exactly when its flow is a voice flow (what the harness does, and what triggers/base.go demands
+   of a voice start), and the type of the trigger's flow is kept in [s_type], so "triggered with a call" is
+   [s_type = 2]. *)
+Definition run_flow_unusable (a : assets) (s : session) (ri : nat) : bool :=
+  match get_run s ri with
+  | Some rn => match get_flow a (r_flow rn) with
+               | None => true
+               | Some f => N.eqb (f_type f) 2 && negb (N.eqb (s_type s) 2)
+               end
+  | None => true
+  end.
+
 Fixpoint continue_until_wait (fuel : nat) (a : assets) (x : st) (l : lstate) : result_ :=
   match fuel with
   | O => ROutOfFuel
@@ -621,10 +636,7 @@ Fixpoint continue_until_wait (fuel : nat) (a : assets) (x : st) (l : lstate) : r
                   let l := {| l_cur := Some pi; l_node := l_node l; l_exit := l_exit l; l_operand := l_operand l;
                               l_step := psr; l_steps := l_steps l; l_trigger := l_trigger l |} in
                   if negb child_failed then
-                    let flow_missing := match get_run (session_ x) pi with
-                                        | Some r => match get_flow a (r_flow r) with None => true | Some _ => false end
-                                        | None => true
-                                        end in
+                    let flow_missing := run_flow_unusable a (session_ x) pi in
                     if flow_missing
                     then continue_until_wait fuel' a (fail_run x pi None FParentMissingFlow) l
                     else
@@ -776,10 +788,7 @@ Definition resume_session (a : assets) (s : session) (r : resume) (tmo : text) :
     | None => Rejected 102
     | Some wi =>
         let x := {| session_ := s; sprint_ := empty_sprint |} in
-        let flow_missing := match get_run s wi with
-                            | Some rn => match get_flow a (r_flow rn) with None => true | Some _ => false end
-                            | None => true
-                            end in
+        let flow_missing := run_flow_unusable a s wi in
         if flow_missing then Resumed (ROk (fail_session x wi FMissingFlow))
         else if (Z.of_nat (count_waits s) >=? max_resumes (a_opts a))%Z
         then Resumed (ROk (fail_session x wi FMaxResumes))
@@ -831,10 +840,7 @@ Definition resume_m (a : assets) (s : session) (r : resume) (tmo : text) : st * 
     | None => (x, OErr 102)
     | Some wi =>
         let failed (c : fail_code) (x : st) := let x' := fail_session x wi c in (x', ORes (ROk x')) in
-        let flow_missing := match get_run s wi with
-                            | Some rn => match get_flow a (r_flow rn) with None => true | Some _ => false end
-                            | None => true
-                            end in
+        let flow_missing := run_flow_unusable a s wi in
         if flow_missing then failed FMissingFlow x
         else if (Z.of_nat (count_waits s) >=? max_resumes (a_opts a))%Z then failed FMaxResumes x
         else
